@@ -4,6 +4,8 @@
 //! so that a call reaching the wrong slot, a lost state update, a double call or a call on the
 //! wrong instance changes an observable.  All arithmetic is modulo `M` (the spec's `Mod`).
 
+pub mod ctor;
+
 use cglue::*;
 use std::sync::atomic::{AtomicUsize, Ordering::SeqCst};
 use vkit::payload;
